@@ -198,23 +198,35 @@ example : (normComps id {} true sample).port = some 8080 ∧
 /-- the final (un)quoting of the path -/
 def finPath (o : Opts) (p : Str) : Str := if o.quoted then safelyQuote p else unquotePath p
 
+/-- the resolved path of the input: unescaped, dot segments and double slashes resolved, the
+trailing slash kept unless `strip_trailing_slash` (and, with the undocumented `lowercase`
+hook that `fingerprint_url` sets, lower-cased right after unescaping) -/
+def resolvedPath (o : Opts) (path : Str) : Str :=
+  resolveUnquoted o.stripTrailingSlash (if o.lowercase then lower (unquotePath path) else unquotePath path)
+
+/-- through the documented API (`lowercase = false`) the case is untouched -/
+theorem resolvedPath_eq (o : Opts) (path : Str) (h : o.lowercase = false) :
+    resolvedPath o path = resolvePath o.stripTrailingSlash path := by
+  simp [resolvedPath, resolvePath, h]
+
 /-- **the path is the resolved path minus at most AMP markers at its end, an index page, the
 root slash and trailing slashes; the characters that remain are untouched (case included)
-until the final (un)quoting.**  `R` is the resolved path (unescaped, dot segments and double
+until the final (un)quoting.**  ``resolvedPath` is the resolved path (unescaped, dot segments and double
 slashes resolved, trailing slash kept unless `strip_trailing_slash`).  Every step says what it
 may remove, and that it removes nothing when its option is off. -/
 theorem normalize_path_deletion (puny : Str → Str) (o : Opts) (hp : Bool) (p : Parsed) :
     ∃ p2 p3 p4 pre t,
-      AmpDel false (resolvePath o.stripTrailingSlash p.path) p2 ∧
-      (o.normalizeAmp = false → p2 = resolvePath o.stripTrailingSlash p.path) ∧
+      AmpDel false (resolvedPath o p.path) p2 ∧
+      (o.normalizeAmp = false → p2 = resolvedPath o p.path) ∧
       (p3 = p2 ∨ (o.stripIndex = true ∧ IndexCut p2 p3)) ∧
       (p4 = p3 ∨ (p3 = ['/'] ∧ p4 = [])) ∧
       (p4 = pre ++ t ∧ (∀ c ∈ t, c = '/') ∧ (o.stripTrailingSlash = false → t = [])) ∧
       (normComps puny o hp p).path = finPath o pre := by
-  let R := resolvePath o.stripTrailingSlash p.path
+  let R := resolvedPath o p.path
   let p2 := if o.normalizeAmp then ampSuffixSub R else R
   let p3 := if o.stripIndex then stripIndex p2 else p2
-  let frag := normFragment o.stripFragment (unquoteFragment p.fragment)
+  let frag := normFragment o.stripFragment
+    (if o.lowercase then lower (unquoteFragment p.fragment) else unquoteFragment p.fragment)
   let p4 : Str := if p3 = ['/'] ∧ frag.isEmpty ∧ (fixedQuery o p).isEmpty then [] else p3
   let pre := if o.stripTrailingSlash && endsWith p4 ['/'] then rstripChars p4 ['/'] else p4
   have hpath : (normComps puny o hp p).path = finPath o pre := by
@@ -257,7 +269,7 @@ theorem normalize_path_deletion (puny : Str → Str) (o : Opts) (hp : Bool) (p :
 /-- corollary: before the final (un)quoting the path is a subsequence of the resolved path —
 characters are only deleted, never added, changed or re-ordered -/
 theorem normalize_path_sublist (puny : Str → Str) (o : Opts) (hp : Bool) (p : Parsed) :
-    ∃ pre, pre.Sublist (resolvePath o.stripTrailingSlash p.path) ∧
+    ∃ pre, pre.Sublist (resolvedPath o p.path) ∧
       (normComps puny o hp p).path = finPath o pre := by
   obtain ⟨p2, p3, p4, pre, t, h2, _, h3, h4, ⟨h5, _, _⟩, h6⟩ := normalize_path_deletion puny o hp p
   refine ⟨pre, ?_, h6⟩
@@ -282,68 +294,94 @@ example : pathSteps {} "/A/b/index.html".toList = "/A/b".toList ∧
 
 /-! ## query -/
 
-/-- the unescaped items of the (mistake-repaired) input query, in order -/
+/-- the hostname the per-domain query filters look at: the parsed one, IDNA-decoded and
+lower-cased -/
+def filterHost (puny : Str → Str) (p : Parsed) : Option Str :=
+  p.hostname.map fun h => if h.isEmpty then h else lower (decodePunycodeHostname puny h)
+
+def lowerItem (it : QItem) : QItem := (lower it.1, it.2.map lower)
+
+/-- the unescaped items of the (mistake-repaired) input query, in order (lower-cased under the
+undocumented `lowercase` hook) -/
 def inputItems (o : Opts) (p : Parsed) : List QItem :=
-  if (fixedQuery o p).isEmpty then [] else unquoteQsl (safeQslIter (fixedQuery o p))
+  if (fixedQuery o p).isEmpty then []
+  else if o.lowercase then (unquoteQsl (safeQslIter (fixedQuery o p))).map lowerItem
+  else unquoteQsl (safeQslIter (fixedQuery o p))
 
 /-- the final (un)quoting of the items -/
-def finQsl (o : Opts) (l : List QItem) : List QItem := if o.quoted then quoteQsl l else l
+def finQsl (o : Opts) (l : List QItem) : List QItem :=
+  if o.quoted then quoteQsl (unquoteQsl l) else unquoteQsl l
+
+/-- the predicate of the query filter for this URL -/
+def dropsItem (puny : Str → Str) (o : Opts) (p : Parsed) (it : QItem) : Prop :=
+  shouldStripQueryItem o.normalizeAmp o.queryItemFilter (domainFilter (filterHost puny p)) it = true
 
 /-- **the query is the input's items minus irrelevant ones, keys and values untouched**: the
-result items are (the quoted form, in quoted mode, of) `ordered`, a permutation — the identity
-when `sort_query` is off — of `kept`, which is the list of unescaped input items minus items
-that all satisfy `shouldStripQueryItem`. -/
+result items are the final (un)quoting of `ordered`, a permutation — the identity when
+`sort_query` is off — of `kept`, which is the list of unescaped input items minus items that
+all satisfy `shouldStripQueryItem`.  Through the documented API (`lowercase = false`) the
+final unquoting changes nothing (`unquoteQsl ordered = ordered`): in unquoted mode the result
+items *are* `ordered`, in quoted mode their quoted form. -/
 theorem normalize_query_sublist (puny : Str → Str) (o : Opts) (hp : Bool) (p : Parsed) :
     ∃ kept ordered,
-      DelSub (fun it => shouldStripQueryItem o.normalizeAmp o.queryItemFilter (domainFilter p.hostname) it = true)
-        (inputItems o p) kept ∧
+      DelSub (dropsItem puny o p) (inputItems o p) kept ∧
       ordered.Perm kept ∧ (o.sortQuery = false → ordered = kept) ∧
-      (normComps puny o hp p).qsl = finQsl o ordered := by
-  let P := fun it => !shouldStripQueryItem o.normalizeAmp o.queryItemFilter (domainFilter p.hostname) it
+      (normComps puny o hp p).qsl = finQsl o ordered ∧
+      (o.lowercase = false → unquoteQsl ordered = ordered) := by
+  let P := fun it => !shouldStripQueryItem o.normalizeAmp o.queryItemFilter (domainFilter (filterHost puny p)) it
   let kept := (inputItems o p).filter P
   let ordered := if o.sortQuery then sortQsl kept else kept
-  have hdel : DelSub (fun it => shouldStripQueryItem o.normalizeAmp o.queryItemFilter (domainFilter p.hostname) it = true)
-      (inputItems o p) kept := by
+  have hdel : DelSub (dropsItem puny o p) (inputItems o p) kept := by
     have := DelSub.filter P (inputItems o p)
-    exact this.mono (fun a h => by simpa [P] using h)
+    exact this.mono (fun a h => by simpa [P, dropsItem] using h)
   have hperm : ordered.Perm kept := by
     show (if o.sortQuery then sortQsl kept else kept).Perm kept
     split
     · exact sortQsl_perm kept
     · exact List.Perm.refl _
-  have hfq : filterQuery o p.hostname (fixedQuery o p) = ordered := by
+  have hfq : filterQuery o (filterHost puny p) (fixedQuery o p) = ordered := by
     unfold filterQuery
-    by_cases he : (fixedQuery o p).isEmpty = true
-    · have hk : kept = [] := by simp [kept, inputItems, he]
-      simp only [he, if_true]
+    cases he : (fixedQuery o p).isEmpty with
+    | true =>
+      have hk : kept = [] := by simp [kept, inputItems, he]
+      simp only [if_true]
       show [] = if o.sortQuery then sortQsl kept else kept
       rw [hk]; cases o.sortQuery <;> rfl
-    · simp only [he]
+    | false =>
+      simp only [Bool.false_eq_true, if_false]
       show _ = if o.sortQuery then sortQsl kept else kept
-      have hk : kept = (unquoteQsl (safeQslIter (fixedQuery o p))).filter P := by
+      have hk : kept = (if o.lowercase then (unquoteQsl (safeQslIter (fixedQuery o p))).map lowerItem
+          else unquoteQsl (safeQslIter (fixedQuery o p))).filter P := by
         simp [kept, inputItems, he]
       rw [hk]
       rfl
-  have hmem : ∀ it ∈ ordered, it ∈ unquoteQsl (safeQslIter (fixedQuery o p)) := by
+  refine ⟨kept, ordered, hdel, hperm, ?_, ?_, ?_⟩
+  · intro hs; simp [ordered, hs]
+  · have : (normComps puny o hp p).qsl =
+        (if o.quoted then quoteQsl (unquoteQsl (filterQuery o (filterHost puny p) (fixedQuery o p)))
+         else unquoteQsl (filterQuery o (filterHost puny p) (fixedQuery o p))) := rfl
+    rw [this, hfq]; rfl
+  · intro hl
+    apply unquoteQsl_fixed (q := safeQslIter (fixedQuery o p))
     intro it hit
     have h1 : it ∈ kept := hperm.subset hit
     have h2 : it ∈ inputItems o p := (List.mem_filter.mp h1).1
     unfold inputItems at h2
+    rw [hl] at h2
     split at h2
     · simp at h2
-    · exact h2
-  have hfix : unquoteQsl ordered = ordered := unquoteQsl_fixed hmem
-  refine ⟨kept, ordered, hdel, hperm, ?_, ?_⟩
-  · intro hs; simp [ordered, hs]
-  · simp only [normComps, finQsl, hfq, hfix]
+    · simpa using h2
 
-/-- in particular (unquoted mode, `sort_query` off) the result items are a subsequence of the
-unescaped input items -/
+/-- in particular (documented API, unquoted mode, `sort_query` off) the result items are a
+subsequence of the unescaped input items -/
 theorem normalize_query_subsequence (puny : Str → Str) (o : Opts) (hp : Bool) (p : Parsed)
-    (hq : o.quoted = false) (hs : o.sortQuery = false) :
+    (hl : o.lowercase = false) (hq : o.quoted = false) (hs : o.sortQuery = false) :
     (normComps puny o hp p).qsl.Sublist (inputItems o p) := by
-  obtain ⟨kept, ordered, h1, _, h3, h4⟩ := normalize_query_sublist puny o hp p
+  obtain ⟨kept, ordered, h1, _, h3, h4, h5⟩ := normalize_query_sublist puny o hp p
   rw [h4, finQsl, hq, h3 hs]
+  have := h5 hl
+  rw [h3 hs] at this
+  simp only [Bool.false_eq_true, if_false, this]
   exact h1.sublist
 
 /-- non-vacuity: tracking items go, the others stay as written, sorted -/
@@ -385,6 +423,15 @@ theorem finish_perm (quoted : Bool) {l1 l2 : List QItem} (h : l1.Perm l2) :
   | false => exact h.map _
   | true => exact (h.map _).map _
 
+theorem filterQuery_sort_perm (o : Opts) (h : Option Str) (q : Str) :
+    (filterQuery { o with sortQuery := true } h q).Perm (filterQuery { o with sortQuery := false } h q) := by
+  unfold filterQuery
+  cases he : q.isEmpty with
+  | true => simp
+  | false =>
+    simp only [Bool.false_eq_true, if_false, if_true]
+    exact sortQsl_perm _
+
 /-- `sort_query` off: the kept items stay in the order of the input (they are the same items
 as with the option on, which only permutes them); no other component changes -/
 theorem option_sort_query_off (puny : Str → Str) (o : Opts) (hp : Bool) (p : Parsed) :
@@ -392,20 +439,17 @@ theorem option_sort_query_off (puny : Str → Str) (o : Opts) (hp : Bool) (p : P
     let B := normComps puny { o with sortQuery := true } hp p
     A.scheme = B.scheme ∧ A.user = B.user ∧ A.pass = B.pass ∧ A.host = B.host ∧ A.port = B.port ∧
     A.path = B.path ∧ A.fragment = B.fragment ∧ B.qsl.Perm A.qsl ∧
-    ∃ kept, DelSub (fun it => shouldStripQueryItem o.normalizeAmp o.queryItemFilter (domainFilter p.hostname) it = true)
-      (inputItems o p) kept ∧ A.qsl = finQsl o kept := by
+    ∃ kept, DelSub (dropsItem puny o p) (inputItems o p) kept ∧ A.qsl = finQsl o kept := by
   refine ⟨rfl, rfl, rfl, rfl, rfl, rfl, rfl, ?_, ?_⟩
-  · have e1 : fixedQuery { o with sortQuery := true } p = fixedQuery o p := rfl
-    have e2 : fixedQuery { o with sortQuery := false } p = fixedQuery o p := rfl
-    simp only [normComps, e1, e2]
-    apply finish_perm
-    unfold filterQuery
-    cases he : (fixedQuery o p).isEmpty with
-    | true => simp
-    | false =>
-      simp only [Bool.false_eq_true, if_false, if_true]
-      exact sortQsl_perm _
-  · obtain ⟨kept, ordered, h1, _, h3, h4⟩ := normalize_query_sublist puny { o with sortQuery := false } hp p
+  · have eA : (normComps puny { o with sortQuery := false } hp p).qsl =
+        (if o.quoted then quoteQsl (unquoteQsl (filterQuery { o with sortQuery := false } (filterHost puny p) (fixedQuery o p)))
+         else unquoteQsl (filterQuery { o with sortQuery := false } (filterHost puny p) (fixedQuery o p))) := rfl
+    have eB : (normComps puny { o with sortQuery := true } hp p).qsl =
+        (if o.quoted then quoteQsl (unquoteQsl (filterQuery { o with sortQuery := true } (filterHost puny p) (fixedQuery o p)))
+         else unquoteQsl (filterQuery { o with sortQuery := true } (filterHost puny p) (fixedQuery o p))) := rfl
+    rw [eA, eB]
+    exact finish_perm _ (filterQuery_sort_perm o _ _)
+  · obtain ⟨kept, ordered, h1, _, h3, h4, _⟩ := normalize_query_sublist puny { o with sortQuery := false } hp p
     exact ⟨kept, h1, by rw [h4, h3 rfl]; rfl⟩
 
 /-- `strip_authentication` off: user and password are the input's (unescaped, quoted again in
@@ -427,20 +471,19 @@ theorem option_strip_trailing_slash_off (puny : Str → Str) (o : Opts) (hp : Bo
     let B := normComps puny { o with stripTrailingSlash := true } hp p
     A.scheme = B.scheme ∧ A.user = B.user ∧ A.pass = B.pass ∧ A.host = B.host ∧ A.port = B.port ∧
     A.qsl = B.qsl ∧ A.fragment = B.fragment ∧
-    (∃ p2 p3 p4, AmpDel false (resolvePath false p.path) p2 ∧
+    (∃ p2 p3 p4, AmpDel false (resolvedPath { o with stripTrailingSlash := false } p.path) p2 ∧
       (p3 = p2 ∨ (o.stripIndex = true ∧ IndexCut p2 p3)) ∧ (p4 = p3 ∨ (p3 = ['/'] ∧ p4 = [])) ∧
       A.path = finPath o p4) ∧
-    resolvePath false p.path =
-      (if (unquotePath p.path).isEmpty then unquotePath p.path
-       else if endsWith (unquotePath p.path) ['/'] && decide ((unquotePath p.path).length > 1)
-         then normpath (unquotePath p.path) ++ ['/'] else normpath (unquotePath p.path)) := by
+    (∀ u, resolveUnquoted false u =
+      (if u.isEmpty then u
+       else if endsWith u ['/'] && decide (u.length > 1) then normpath u ++ ['/'] else normpath u)) := by
   refine ⟨rfl, rfl, rfl, rfl, rfl, rfl, rfl, ?_, ?_⟩
   · obtain ⟨p2, p3, p4, pre, t, h2, _, h3, h4, ⟨h5, _, h7⟩, h6⟩ :=
       normalize_path_deletion puny { o with stripTrailingSlash := false } hp p
     have ht : t = [] := h7 rfl
     subst ht
     exact ⟨p2, p3, p4, h2, h3, h4, by rw [h6, h5]; simp [finPath]⟩
-  · simp [resolvePath]
+  · intro u; simp [resolveUnquoted]
 
 /-- `strip_index` off: the index page stays; nothing but the path changes -/
 theorem option_strip_index_off (puny : Str → Str) (o : Opts) (hp : Bool) (p : Parsed) :
@@ -448,7 +491,7 @@ theorem option_strip_index_off (puny : Str → Str) (o : Opts) (hp : Bool) (p : 
     let B := normComps puny { o with stripIndex := true } hp p
     A.scheme = B.scheme ∧ A.user = B.user ∧ A.pass = B.pass ∧ A.host = B.host ∧ A.port = B.port ∧
     A.qsl = B.qsl ∧ A.fragment = B.fragment ∧
-    ∃ p2 p4 pre t, AmpDel false (resolvePath o.stripTrailingSlash p.path) p2 ∧
+    ∃ p2 p4 pre t, AmpDel false (resolvedPath o p.path) p2 ∧
       (p4 = p2 ∨ (p2 = ['/'] ∧ p4 = [])) ∧ p4 = pre ++ t ∧ (∀ c ∈ t, c = '/') ∧
       A.path = finPath o pre := by
   refine ⟨rfl, rfl, rfl, rfl, rfl, rfl, rfl, ?_⟩
@@ -516,6 +559,10 @@ theorem normPath_fragment (o : Opts) (path fa fb q : Str) (h : fb = fa ∨ fb = 
         simp [endsWith, rstripChars]
     · left; simp [h3]
 
+/-- the unescaped fragment of the input (lower-cased under the `lowercase` hook) -/
+def inputFragment (o : Opts) (p : Parsed) : Str :=
+  if o.lowercase then lower (unquoteFragment p.fragment) else unquoteFragment p.fragment
+
 /-- `strip_fragment` off: the fragment is the input's (unescaped, quoted again in quoted mode);
 nothing else changes, except that a root path `/` is not reduced to the empty path when the
 kept fragment is what stands behind it -/
@@ -523,19 +570,19 @@ theorem option_strip_fragment_off (puny : Str → Str) (o : Opts) (hp : Bool) (p
     (sf : StripFragment) :
     let A := normComps puny { o with stripFragment := .no } hp p
     let B := normComps puny { o with stripFragment := sf } hp p
-    A.fragment = requote o.quoted unquoteFragment (unquoteFragment p.fragment) ∧
+    A.fragment = requote o.quoted unquoteFragment (inputFragment o p) ∧
     A.scheme = B.scheme ∧ A.user = B.user ∧ A.pass = B.pass ∧ A.host = B.host ∧ A.port = B.port ∧
     A.qsl = B.qsl ∧ (A.path = B.path ∨ (A.path = finPath o ['/'] ∧ B.path = finPath o [])) := by
-  obtain ⟨hno, hsf⟩ := normFragment_cases sf (unquoteFragment p.fragment)
+  obtain ⟨hno, hsf⟩ := normFragment_cases sf (inputFragment o p)
   refine ⟨?_, rfl, rfl, rfl, rfl, rfl, rfl, ?_⟩
-  · show requote o.quoted unquoteFragment (normFragment .no (unquoteFragment p.fragment)) = _
+  · show requote o.quoted unquoteFragment (normFragment .no (inputFragment o p)) = _
     rw [hno]
-  · have := normPath_fragment o p.path (unquoteFragment p.fragment)
-      (normFragment sf (unquoteFragment p.fragment)) (fixedQuery o p) hsf
+  · have := normPath_fragment o p.path (inputFragment o p)
+      (normFragment sf (inputFragment o p)) (fixedQuery o p) hsf
     have eA : (normComps puny { o with stripFragment := .no } hp p).path =
-        normPath o p.path (normFragment .no (unquoteFragment p.fragment)) (fixedQuery o p) := rfl
+        normPath o p.path (normFragment .no (inputFragment o p)) (fixedQuery o p) := rfl
     have eB : (normComps puny { o with stripFragment := sf } hp p).path =
-        normPath o p.path (normFragment sf (unquoteFragment p.fragment)) (fixedQuery o p) := rfl
+        normPath o p.path (normFragment sf (inputFragment o p)) (fixedQuery o p) := rfl
     rw [eA, eB, hno]
     exact this
 
@@ -546,8 +593,8 @@ theorem option_normalize_amp_off (puny : Str → Str) (o : Opts) (hp : Bool) (p 
     let A := normComps puny { o with normalizeAmp := false } hp p
     let B := normComps puny { o with normalizeAmp := true } hp p
     A.scheme = B.scheme ∧ A.user = B.user ∧ A.pass = B.pass ∧ A.port = B.port ∧ A.fragment = B.fragment ∧
-    (∃ p3 p4 pre t, (p3 = resolvePath o.stripTrailingSlash p.path ∨
-        (o.stripIndex = true ∧ IndexCut (resolvePath o.stripTrailingSlash p.path) p3)) ∧
+    (∃ p3 p4 pre t, (p3 = resolvedPath o p.path ∨
+        (o.stripIndex = true ∧ IndexCut (resolvedPath o p.path) p3)) ∧
       (p4 = p3 ∨ (p3 = ['/'] ∧ p4 = [])) ∧ p4 = pre ++ t ∧ (∀ c ∈ t, c = '/') ∧ A.path = finPath o pre) ∧
     (∀ h, p.hostname = some h → h ≠ [] → ∃ h', A.host = some h' ∧ HostDel puny false h h') := by
   refine ⟨rfl, rfl, rfl, rfl, rfl, ?_, ?_⟩
@@ -559,30 +606,32 @@ theorem option_normalize_amp_off (puny : Str → Str) (o : Opts) (hp : Bool) (p 
   · intro h hh hne
     exact normalize_host_deletion_only puny { o with normalizeAmp := false } hp p h hh hne
 
-theorem fixMistakes_isEmpty (q : Str) : (fixCommonQueryMistakes q).isEmpty = q.isEmpty := by
-  cases q with
-  | nil => rfl
-  | cons c cs =>
-    simp only [fixCommonQueryMistakes, fixMistakesFrom]
-    split <;> rfl
+/-- the query reaches the path only through the root rule -/
+theorem normPath_query (o : Opts) (path f qa qb : Str) :
+    normPath o path f qa = normPath o path f qb ∨
+    ((normPath o path f qa = finPath o ['/'] ∧ normPath o path f qb = finPath o []) ∨
+     (normPath o path f qa = finPath o [] ∧ normPath o path f qb = finPath o ['/'])) := by
+  unfold normPath finPath
+  generalize pathSteps o path = p3
+  by_cases h3 : p3 = ['/']
+  · subst h3
+    cases ha : qa.isEmpty <;> cases hb : qb.isEmpty <;> cases hf : f.isEmpty <;>
+      cases hs : o.stripTrailingSlash <;> simp [endsWith, rstripChars]
+  · left; simp [h3]
 
-/-- `fix_common_mistakes` off: the query is split as written; nothing but the query changes -/
+/-- `fix_common_mistakes` off: the query is split as written; scheme, userinfo, host, port and
+fragment do not change, the path at most by the root rule (which asks whether the query is
+empty) -/
 theorem option_fix_common_mistakes_off (puny : Str → Str) (o : Opts) (hp : Bool) (p : Parsed) :
     let A := normComps puny { o with fixCommonMistakes := false } hp p
     let B := normComps puny { o with fixCommonMistakes := true } hp p
     fixedQuery { o with fixCommonMistakes := false } p = p.query ∧
     A.scheme = B.scheme ∧ A.user = B.user ∧ A.pass = B.pass ∧ A.host = B.host ∧ A.port = B.port ∧
-    A.path = B.path ∧ A.fragment = B.fragment := by
-  refine ⟨by simp [fixedQuery], rfl, rfl, rfl, rfl, rfl, ?_, rfl⟩
-  have hq : (fixedQuery { o with fixCommonMistakes := true } p).isEmpty =
-      (fixedQuery { o with fixCommonMistakes := false } p).isEmpty := by
-    simp only [fixedQuery, Bool.true_and, Bool.false_and, Bool.false_eq_true, if_false]
-    cases he : p.query.isEmpty with
-    | true => simp [he]
-    | false => simp [fixMistakes_isEmpty, he]
-  simp only [normComps, normPath]
-  rw [hq]
-  rfl
+    A.fragment = B.fragment ∧
+    (A.path = B.path ∨ ((A.path = finPath o ['/'] ∧ B.path = finPath o []) ∨
+      (A.path = finPath o [] ∧ B.path = finPath o ['/']))) := by
+  refine ⟨by simp [fixedQuery], rfl, rfl, rfl, rfl, rfl, rfl, ?_⟩
+  exact normPath_query o p.path _ _ _
 
 /-- `infer_redirection` off: the argument itself is cleaned and parsed -/
 theorem option_infer_redirection_off (platform : Str → Str) (url : Str) :
